@@ -728,30 +728,31 @@ def monitor_history(ops, obs):
             # C03 through ThinArc::with_arc_mut: `Arc::get_mut` on the lent Arc succeeds iff nobody else owns the allocation
             # the transient refers to at that moment (the callback may have cloned it, replaced it or swapped it)
             cur = pre[src]["blk"]
-            own = owners(pre, cur)
-            tmp = dict(pre)
+            own = {}
+            for z in pre.values():
+                if z["kind"] not in ("borrow",):
+                    own[z["blk"]] = own.get(z["blk"], 0) + 1
+            blk_of = {k2: z["blk"] for k2, z in pre.items()}
             toks = [x for x in o["out"].split(";") if x]
             for a_i, act in enumerate(f[3].split(",")):
                 if a_i >= len(toks):
                     break
                 tk = toks[a_i]
                 if tk == "cloned":
-                    own += 1
+                    own[cur] = own.get(cur, 0) + 1
                 elif tk in ("replaced", "swapped"):
                     kk = int(act.split(":")[1])
-                    if kk in tmp:
-                        nb = tmp[kk]["blk"]
+                    if kk in blk_of:
+                        nb = blk_of[kk]
                         if tk == "replaced":
-                            del tmp[kk]
+                            own[cur] = own.get(cur, 0) - 1      # the assignment drops the old transient (the lender's own reference)
+                            del blk_of[kk]                       # slot k's handle is now the lender's
                         else:
-                            tmp[kk] = dict(tmp[kk], blk=cur)
+                            blk_of[kk] = cur                     # slot k now holds what the lender held
                         cur = nb
-                        own = sum(1 for z in tmp.values() if z["blk"] == cur and z["kind"] not in ("borrow",)) + (1 if tk == "replaced" else 0)
-                        if tk == "swapped":
-                            own = owners(pre, nb)
                 elif tk.startswith("mut="):
-                    if (tk == "mut=some") != (own == 1):
-                        fails.append((i, ["C03"], "get_mut inside the with_arc_mut callback answered %s while %d owning handle(s) refer to b%d" % (tk[4:], own, cur)))
+                    if (tk == "mut=some") != (own.get(cur, 0) == 1):
+                        fails.append((i, ["C03"], "get_mut inside the with_arc_mut callback answered %s while %d owning handle(s) refer to b%d" % (tk[4:], own.get(cur, 0), cur)))
                         break
         if f[0] == "iter" and st.startswith("panic") and len(f) == 8:
             # C06: an HONEST iterator (every reported length / size_hint it ever gives is true, next() never panics) must be accepted
@@ -937,6 +938,7 @@ def run_impl_resilient(harness_exe, histories, timeout=600):
     out = [None] * len(histories)
     crashes = []
     start = 0
+    start_stuck = False
     while start < len(histories):
         text = "\n".join("\n".join(h) for h in histories[start:]) + "\n"
         lines, rc = run_batch(harness_exe, text, timeout)
@@ -952,6 +954,16 @@ def run_impl_resilient(harness_exe, histories, timeout=600):
             k += 1
         if k >= len(histories):
             break
+        if rc == 5 and (k > start or len(out[k] or []) == 0):
+            # the harness stopped at a `reset` because its allocation record table was nearly full: not an observation,
+            # continue with the same history in a fresh process
+            if k == start and start_stuck:
+                raise RuntimeError("history harness: record table full at the first history of a fresh process")
+            start_stuck = (k == start)
+            out[k] = None
+            start = k
+            continue
+        start_stuck = False
         crashes.append((k, rc))
         start = k + 1
     return [o if o is not None else [] for o in out], crashes
